@@ -433,12 +433,10 @@ func runHistory(h HistSpec) {
 				emptyFrag = true
 			}
 		}
-		if sp.Wait && sp.Prefill+want > snd.SendCap() {
-			overflow = true
-		}
-		if len(st.frs) > 1 && firstPos[i] > 0 {
-			notPos0 = true
-		}
+		// write(true, ...) of a FRAGMENTED packet with fewer free slots than fragments: the unchanged code
+		// has no room check on this path (only write(false, ...) has one) and queue() drops silently
+		ovf := sp.Wait && want > 1 && sp.Prefill+want > snd.SendCap()
+		np0 := len(st.frs) > 1 && firstPos[i] > 0
 		allArrived := true
 		for k := range st.frs {
 			if arrived[i][k] == 0 {
@@ -486,10 +484,15 @@ func runHistory(h HistSpec) {
 		} else if len(mine) > 0 {
 			fails = append(fails, fmt.Sprintf("send %d: a group with a missing fragment (or a refused packet) was delivered", i))
 		}
-		if len(fails) > nf { // the key names the idle group only when every failure of the history is "not delivered" of such a group
-			if timedOut && !stalled && len(mine) == 0 {
+		if len(fails) > nf { // a finding's key is used only when EVERY failure of the history is "not delivered" of a send of that shape
+			switch {
+			case ovf && len(mine) == 0:
+				overflow = true
+			case np0 && len(mine) == 0:
+				notPos0 = true
+			case timedOut && !stalled && len(mine) == 0:
 				idleFive = true
-			} else {
+			default:
 				otherFail = true
 			}
 		}
@@ -555,9 +558,9 @@ func runHistory(h HistSpec) {
 		// the key is the SHAPE of the input, never the outcome
 		var key string
 		switch {
-		case overflow:
-			key = "fragments-exceed-send-queue"
-		case notPos0:
+		case overflow && !otherFail:
+			key = "write-true-fragments-exceed-free-slots"
+		case notPos0 && !otherFail:
 			key = "first-arrival-not-pos0"
 		case idleFive && !otherFail:
 			key = "idle-five-wakeups-at-protocol-cadence"
@@ -749,6 +752,40 @@ func main() {
 			}
 			h.Sched = append(h.Sched, [2]int{0, 2})
 			hist(h)
+		}
+	}
+	// ---- occupancy of the send queue around the refusal rule of write: free slots in
+	// {count-2 .. count+1} for counts 2, 3, 5, a full and an empty queue, write(false, ...) and write(true, ...).
+	// write(false): refused with ErrFullBuffer (nothing queued) unless ALL fragments fit; write(true) with
+	// too few slots is the recorded finding
+	{
+		capq := 128
+		for _, cnt := range []int{2, 3, 5} {
+			n := (cnt-1)*F + 1000
+			if plannedCount(SendSpec{Len: n}) != cnt {
+				panic("queue-boundary: fragment count")
+			}
+			for _, free := range []int{0, cnt - 2, cnt - 1, cnt, cnt + 1, capq} {
+				for _, w := range []bool{false, true} {
+					if free < 0 || (w && (free == 0 || free == capq)) {
+						continue
+					}
+					h := plain("queue-boundary", n, "identity")
+					h.Sends[0].Wait, h.Sends[0].Prefill, h.Sends[0].Tags = w, capq-free, 0
+					hist(h)
+				}
+			}
+		}
+		// the single-packet path: refused unless two slots are free (len+1 >= cap)
+		for _, free := range []int{0, 1, 2, 3} {
+			for _, w := range []bool{false, true} {
+				if w && free == 0 {
+					continue
+				}
+				h := plain("queue-boundary", 5000, "identity")
+				h.Sends[0].Wait, h.Sends[0].Prefill, h.Sends[0].Tags = w, capq-free, 0
+				hist(h)
+			}
 		}
 	}
 	// unfragmented sizes around the limit, empty and small packets
